@@ -1,6 +1,8 @@
 // Correspondence harness for the front end (lexer now; parser/analyser commands added below).
 #include "common.hpp"
 #include "bloch/compiler/lexer/lexer.hpp"
+#include "bloch/compiler/parser/parser.hpp"
+#include "ast_dump.hpp"
 
 using namespace bloch::compiler;
 using bloch::support::BlochError;
@@ -49,7 +51,18 @@ int main() {
         auto a = vh::split(line);
         std::string out = "bad-op";
         try {
-            if (a.size() == 2 && a[0] == "lex") {
+            if (a.size() == 2 && a[0] == "parse") {
+                std::string src = a[1] == "-" ? std::string() : vh::unhexBytes(a[1]);
+                try {
+                    Lexer lx(src);
+                    auto toks = lx.tokenize();
+                    Parser ps(std::move(toks));
+                    auto prog = ps.parse();
+                    out = "ok " + vdump::program(*prog);
+                } catch (const BlochError& e) {
+                    out = std::string("err ") + catName(e.category) + " " + std::to_string(e.line) + " " + std::to_string(e.column);
+                }
+            } else if (a.size() == 2 && a[0] == "lex") {
                 std::string src = a[1] == "-" ? std::string() : vh::unhexBytes(a[1]);
                 try {
                     Lexer lx(src);
